@@ -216,9 +216,13 @@ def nontrivial(s):
 
 # --------------------------------------------------------------------------
 
-def variables_for(flavor, P):
+def variables_for(flavor, P, rooty=False):
     from bfg9000.platforms.basepath import Root, InstallRoot, DestDir
-    if flavor == 'posix':
+    if rooty:
+        # base directories that ARE root directories (a project at the top of a drive, a
+        # package installed with --prefix=/)
+        src, bld, pre = ('/', '/b', '/') if flavor == 'posix' else ('C:/', 'D:/b', 'C:/')
+    elif flavor == 'posix':
         src, bld, pre = '/s r c/proj', '/b/uild', '/usr/lo cal'
     else:
         src, bld, pre = 'C:/s r c/proj', 'D:/b/uild', 'C:/Program Files/x'
@@ -232,11 +236,12 @@ def variables_for(flavor, P):
         InstallRoot.datadir: P('share', InstallRoot.prefix),
         InstallRoot.mandir: P('man', InstallRoot.datadir),
     }
+    pj = pre.rstrip('/')
     strs = {
         'srcdir': src, 'builddir': bld, 'prefix': pre, 'exec_prefix': pre,
-        'bindir': pre + '/bin', 'libdir': pre + '/lib',
-        'includedir': pre + '/include', 'datadir': pre + '/share',
-        'mandir': pre + '/share/man',
+        'bindir': pj + '/bin', 'libdir': pj + '/lib',
+        'includedir': pj + '/include', 'datadir': pj + '/share',
+        'mandir': pj + '/share/man',
     }
     return real, strs
 
@@ -299,6 +304,7 @@ def run_case(case):
     P = PosixPath if flavor == 'posix' else WindowsPath
     rootobj, rootmodel = parse_root(case['root'], P)
     variables, varstrs = variables_for(flavor, P)
+    rvariables, rvarstrs = variables_for(flavor, P, rooty=True)
     before = dict(pathlaws.EVALS)
     accepted = []
     res.evaluations = 0
@@ -441,16 +447,17 @@ def run_case(case):
                              '__case__': dict(sub(s), strings=[s, t])})
 
         # ---- string() == ordinary joining
-        for vname, v in (('paths', variables),
-                         ('strings', {k: varstrs[k.name] if flavor == 'posix' else
-                                      varstrs[k.name].replace('/', '\\')
-                                      for k in variables})):
+        for vname, v, vs in (('paths', variables, varstrs),
+                             ('strings', {k: varstrs[k.name] if flavor == 'posix' else
+                                          varstrs[k.name].replace('/', '\\')
+                                          for k in variables}, varstrs),
+                             ('paths-root-bases', rvariables, rvarstrs)):
             res.ev('law:string')
             try:
                 real = p.string(v)
             except Exception as e:
                 real = 'EXC ' + repr(e)
-            want = expected_string(flavor, varstrs, p.root.name, p.suffix)
+            want = expected_string(flavor, vs, p.root.name, p.suffix)
             norm = (posixpath.normpath(real) if flavor == 'posix'
                     else ntpath.normpath(real)) if not real.startswith('EXC') else real
             if norm != want or (flavor == 'windows' and '/' in real) or \
